@@ -269,7 +269,9 @@ SAFE_BUILTINS = {
     "KeyError": KeyError, "TypeError": TypeError, "ValueError": ValueError, "IndexError": IndexError, "Exception": Exception,
     "LookupError": LookupError, "AttributeError": AttributeError, "StopIteration": StopIteration,
 }
-EXT_OK = ("re", "fractions", "itertools", "collections", "numbers", "operator", "functools", "math", "warnings")
+import builtins as _builtins
+SAFE_BUILTINS.update({n: v for n, v in vars(_builtins).items() if isinstance(v, type) and issubclass(v, BaseException)})
+EXT_OK = ("re", "fractions", "itertools", "collections", "numbers", "operator", "functools", "math", "warnings", "json", "errno", "textwrap", "traceback", "io", "contextlib")
 ERR_CLASSES = ("ValidationError", "SchemaError")
 
 HIER = {
@@ -459,6 +461,8 @@ class Ev:
         self.defaults = {}
         self.modvals = {}
         self.clsvals = {}
+        self.builtins = {}          # extra builtins for a scenario (a fake `open`)
+        self.ext = {}               # replacements for library names, by dotted name ("sys": stub)
         self.real_errors = real_errors      # True: ValidationError(...) instantiates the package's own class
 
     def preset(self, modname, name, value):
@@ -604,7 +608,7 @@ class Ev:
         raise PyRaise("AttributeError", "%s has no attribute %s" % (o.cls.name, name))
 
     # ------------------------------------------------------------------ functions
-    def call_func(self, func, args, kwargs, closure=None):
+    def call_func(self, func, args, kwargs, closure=None, on_yield=None):
         self.depth += 1
         if self.depth > 40:
             raise Undecided("recursion too deep")
@@ -618,6 +622,7 @@ class Ev:
             env["__closure__"] = closure
             yields = []
             env["__yields__"] = yields
+            env["__on_yield__"] = on_yield
             ret = None
             try:
                 self.block(node.body, env, func)
@@ -829,7 +834,7 @@ class Ev:
                 else:
                     env[a.asname or top] = _External(a.name)
         elif isinstance(st, ast.With):
-            raise Undecided("with statement")
+            self.with_stmt(st, 0, env, func)
         else:
             raise Undecided("statement %s" % type(st).__name__)
 
@@ -866,6 +871,53 @@ class Ev:
             if ok_all:
                 return False
         return pr.name in names or any(b in names for b in HIER.get(pr.name, ("Exception",)))
+
+    def with_stmt(self, st, i, env, func):
+        """with a as x, b as y: body -- native context managers (files, StringIO) by their own __enter__/__exit__; a package
+        function decorated with contextlib.contextmanager by running its body with the with-body as continuation of its yield."""
+        if i == len(st.items):
+            self.block(st.body, env, func)
+            return
+        item = st.items[i]
+        ce = item.context_expr
+        # package contextmanager generator?
+        if isinstance(ce, ast.Call):
+            fn = self.expr(ce.func, env, func)
+            target = fn.func if isinstance(fn, (FuncRef, BoundMethod)) else None
+            if target is not None and any(norm(d).split(".")[-1] == "contextmanager" for d in target.decorators):
+                args = [self.expr(a, env, func) for a in ce.args]
+                kwargs = {k.arg: self.expr(k.value, env, func) for k in ce.keywords}
+                if isinstance(fn, BoundMethod):
+                    args = [fn.recv] + args
+                ran = []
+
+                def on_yield(value):
+                    if ran:
+                        raise PyRaise("RuntimeError", "generator didn't stop")
+                    ran.append(True)
+                    if item.optional_vars is not None:
+                        self.assign(item.optional_vars, value, env, func)
+                    self.with_stmt(st, i + 1, env, func)
+                self.call_func(target, args, kwargs, closure=getattr(fn, "closure", None), on_yield=on_yield)
+                if not ran:
+                    raise PyRaise("RuntimeError", "generator didn't yield")
+                return
+            cm = self.native(fn, *[self.expr(a, env, func) for a in ce.args], **{k.arg: self.expr(k.value, env, func) for k in ce.keywords}) \
+                if not isinstance(fn, (FuncRef, BoundMethod, ClsRef)) else fn(*[self.expr(a, env, func) for a in ce.args],
+                                                                             **{k.arg: self.expr(k.value, env, func) for k in ce.keywords})
+        else:
+            cm = self.expr(ce, env, func)
+        if isinstance(cm, (Obj, Tok)) or not hasattr(cm, "__enter__"):
+            raise Undecided("with on %r" % type(cm).__name__)
+        val = self.native(cm.__enter__)
+        if item.optional_vars is not None:
+            self.assign(item.optional_vars, val, env, func)
+        try:
+            self.with_stmt(st, i + 1, env, func)
+        except (PyRaise, _Return, _Break, _Continue):
+            self.native(cm.__exit__, None, None, None)
+            raise
+        self.native(cm.__exit__, None, None, None)
 
     @staticmethod
     def _load(t):
@@ -926,6 +978,8 @@ class Ev:
             c = c.get("__closure__")
         mod = func.mod if func is not None else None
         r = self.prog.resolve_name(mod, name, func) if mod is not None else None
+        if r is None and name in self.builtins:
+            return self.builtins[name]
         if r is None:
             if name in SAFE_BUILTINS:
                 return SAFE_BUILTINS[name]
@@ -939,6 +993,13 @@ class Ev:
             if r.name in ERR_CLASSES and not self.real_errors:
                 return lambda message="", **kw: Err("own", message, kw.pop("context", ()), **kw)
             return ClsRef(self, r)
+        if isinstance(r, tuple) and r[0] == "ext" and r[1] in self.ext:
+            return self.ext[r[1]]
+        if isinstance(r, tuple) and r[0] == "ext" and r[1].split(".")[0] in self.ext and "." in r[1]:
+            obj = self.ext[r[1].split(".")[0]]
+            for part in r[1].split(".")[1:]:
+                obj = getattr(obj, part)
+            return obj
         if isinstance(r, tuple) and r[0] == "ext" and r[1] in ("pyrsistent.pmap", "pyrsistent.m"):
             return PMap
         if isinstance(r, tuple) and r[0] == "ext" and r[1] == "attr.evolve":
@@ -1154,6 +1215,9 @@ class Ev:
             return "".join(parts)
         if isinstance(e, ast.Yield):
             v = self.expr(e.value, env, func) if e.value is not None else None
+            if env.get("__on_yield__") is not None:
+                env["__on_yield__"](v)      # contextmanager: the with-body runs here, inside the generator's try/finally
+                return None
             env["__yields__"].append(v)
             return None
         if isinstance(e, ast.YieldFrom):
